@@ -95,7 +95,7 @@ func Explore(sc *Scenario, cfg Config) *Stats {
 			stop = true
 			return
 		}
-		res, obs := RunOnce(sc, prefix, cfg.Horizon, false)
+		res, obs := RunOnce(sc, prefix, cfg.Horizon, first) // the first execution keeps its log (see below)
 		st.Executions++
 		st.Points += int64(res.Steps)
 		if res.EngineErr != "" {
@@ -106,9 +106,40 @@ func Explore(sc *Scenario, cfg Config) *Stats {
 		if first {
 			// determinism obligation: the first execution, run twice, must be identical
 			first = false
-			res2, obs2 := RunOnce(sc, prefix, cfg.Horizon, false)
-			if sig(sc, res, obs) != sig(sc, res2, obs2) || len(res.Trace) != len(res2.Trace) {
-				st.EngineErr = fmt.Sprintf("scenario %s: nondeterminism not captured (same choices, different outcome: %q vs %q, %d vs %d choice points)", sc.Name, sig(sc, res, obs), sig(sc, res2, obs2), len(res.Trace), len(res2.Trace))
+			res2, obs2 := RunOnce(sc, prefix, cfg.Horizon, true)
+			failing := false
+			if k1, _ := sc.Check(res, obs); k1 != "" {
+				if k2, _ := sc.Check(res2, obs2); k2 == k1 {
+					// both runs fail in the same way: each is a real execution of the real code, so the
+					// failure stands even if some nondeterminism (typically Go's map iteration order on a
+					// path only the failure reaches) makes the two runs differ in length; it is recorded
+					// below and the scenario's remaining schedules are not explored
+					failing = true
+					if len(res.Trace) != len(res2.Trace) {
+						stop = true
+						st.Exhaustive = false
+					}
+				}
+			}
+			if !failing && (sig(sc, res, obs) != sig(sc, res2, obs2) || len(res.Trace) != len(res2.Trace)) {
+				where := ""
+				for i := 0; i < len(res.Log) || i < len(res2.Log); i++ {
+					a, b := "<end>", "<end>"
+					if i < len(res.Log) {
+						a = res.Log[i]
+					}
+					if i < len(res2.Log) {
+						b = res2.Log[i]
+					}
+					if a != b {
+						where = fmt.Sprintf("; logs differ at line %d: %q vs %q", i, a, b)
+						if i > 0 {
+							where += fmt.Sprintf(" (after %q)", res.Log[i-1])
+						}
+						break
+					}
+				}
+				st.EngineErr = fmt.Sprintf("scenario %s: nondeterminism not captured (same choices, different outcome: %q vs %q, %d vs %d choice points)%s", sc.Name, sig(sc, res, obs), sig(sc, res2, obs2), len(res.Trace), len(res2.Trace), where)
 				stop = true
 				return
 			}
